@@ -425,7 +425,7 @@ def early_use_cases(rng, n):
         m = types.ModuleType(f"c11_early{k}")
         sys.modules[m.__name__] = m
         fail = None
-        early = rng.choice(["get_child_fields", "instantiate", "get_property_fields", "none"])
+        early = ["get_child_fields", "instantiate", "get_property_fields", "none"][k % 4]
         try:
             exec(compile(src1, m.__name__, "exec"), m.__dict__)
             T = m.__dict__[f"EuTree{k}"]
